@@ -200,12 +200,12 @@ Definition by_index (v : val) (i : num) : found :=
   match v, i with
   | VList items, Int z =>
       if (z <? 0)%Z then NotFound
-      else match nth_error items (Z.to_nat z) with Some x => Found x | None => Found VUnit end
+      else match nth_z items z with Some x => Found x | None => Found VUnit end
   | VPair (VSym k) x, _ => if num_eq i (Int 0) then Found v else NotFound
   | VPair _ _, _ => NotFound
   | VChars cs, Int z =>
       if (z <? 0)%Z then NotFound
-      else match nth_error cs (Z.to_nat z) with Some c => Found (VChar c) | None => NotFound end
+      else match nth_z cs z with Some c => Found (VChar c) | None => NotFound end
   | VList _, Flt _ | VChars _, Flt _ => Open U_float
   | VSymList _, _ => Open U_symnum
   | VConcat _ _, _ | VSlice _ _, _ | VRange _ _, _ | VBytes _, _ => Open U_kind
